@@ -24,14 +24,6 @@ set_option linter.unusedSectionVars false
 
 variable {E : Type} [NormedAddCommGroup E] [InnerProductSpace ℝ E]
 
-namespace OdlModel.C09
-/-- `L` is a Lipschitz constant of the map `G`. -/
-def LipOn (G : E → E) (L : ℝ) : Prop := ∀ x y, ‖G x - G y‖ ≤ L * ‖x - y‖
-
-theorem LipOn.mono {G : E → E} {L L' : ℝ} (h : LipOn G L) (hl : L ≤ L') : LipOn G L' :=
-  fun x y => (h x y).trans (mul_le_mul_of_nonneg_right hl (norm_nonneg _))
-end OdlModel.C09
-open OdlModel.C09
 
 /-- `FunctionalLeftScalarMult`: the gradient `s·∇f` is `|s|·L`-Lipschitz (the value the
 constructor passes as `grad_lipschitz`). -/
